@@ -28,6 +28,8 @@ func init() {
 			ruleAlwaysCancels(r, "R11")
 			ruleAsTargetMatchesProducer(r, "R12")
 			ruleC05R13(r)
+			ruleClosedChannelsRecognised(r, "R14", "/wire", "/iscp")
+			ruleAttemptUsesCurrentConn(r, "R15")
 		},
 	})
 }
@@ -978,5 +980,170 @@ func ruleC05R13(r *Run) {
 	}
 	if n == 0 {
 		r.Undecided("stream watchers", "no wait loop testing for Reconnecting found outside the status holder")
+	}
+}
+
+// ruleClosedChannelsRecognised: a receive from a closed channel succeeds at once with the zero value. Where the module
+// closes the channels it keeps in a table (close(ch) on an element of a map field), every function that registers a
+// channel in that table and receives from it must use the two-value form — otherwise "the table was torn down" reads
+// as "a nil reply arrived", and the error that makes the caller retry after a reconnect is lost.
+func ruleClosedChannelsRecognised(r *Run, id string, pkgs ...string) {
+	r.Begin(id, "closed channels are recognised: for every map field whose element channels are closed somewhere in the module, each receive on a channel that the receiving function itself registered in that map is in comma-ok form (for a select case: the select's receive-ok result is used)", 0)
+	p := r.P
+	inPkgs := func(fn *ssa.Function) bool {
+		for _, pk := range pkgs {
+			if fnPkgPath(fn) == modPath+pk {
+				return true
+			}
+		}
+		return false
+	}
+	closed := map[string]string{} // field key -> where closed
+	for _, fn := range p.Funcs {
+		if !inPkgs(fn) || fn.Blocks == nil {
+			continue
+		}
+		allInstrs(fn, func(ins ssa.Instruction) {
+			cc := instrCall(ins)
+			if cc == nil {
+				return
+			}
+			if b, isB := cc.Value.(*ssa.Builtin); !isB || b.Name() != "close" {
+				return
+			}
+			for _, l := range p.Leaves(cc.Args[0], provOpts{}) {
+				if (strings.HasPrefix(l, "elem:") || strings.HasPrefix(l, "rangeval:")) && strings.Contains(l, "/") {
+					closed[l[strings.IndexByte(l, '/'):]] = posOf(p, ins)
+				}
+			}
+		})
+	}
+	n := 0
+	for _, fn := range p.Funcs {
+		if !inPkgs(fn) || fn.Blocks == nil {
+			continue
+		}
+		k := 0
+		allInstrs(fn, func(ins ssa.Instruction) {
+			mu, ok := ins.(*ssa.MapUpdate)
+			if !ok {
+				return
+			}
+			u, isU := mu.Map.(*ssa.UnOp)
+			if !isU {
+				return
+			}
+			fk := fieldKeyOfAddr(u.X)
+			where, isClosed := closed[fk]
+			if !isClosed {
+				return
+			}
+			ch := canonVal(mu.Value)
+			same := func(v ssa.Value) bool {
+				c := canonVal(v)
+				if ct, isCT := c.(*ssa.ChangeType); isCT {
+					c = canonVal(ct.X)
+				}
+				return c == ch
+			}
+			allInstrs(fn, func(x ssa.Instruction) {
+				switch y := x.(type) {
+				case *ssa.UnOp:
+					if y.Op == token.ARROW && same(y.X) {
+						n++
+						k++
+						r.Check(fmt.Sprintf("%s receive#%d from %s", fnName(fn), k, shortKey(fk)), y.CommaOk, posOf(p, y), fnName(fn), "the channels of "+fk+" are closed at "+where+"; this receive does not ask whether the channel was closed and takes the zero value for a message")
+					}
+				case *ssa.Select:
+					for i, st := range y.States {
+						if st.Dir != types.RecvOnly || !same(st.Chan) {
+							continue
+						}
+						_ = i
+						n++
+						k++
+						used := false
+						if y.Referrers() != nil {
+							for _, ref := range *y.Referrers() {
+								if ex, isEx := ref.(*ssa.Extract); isEx && ex.Index == 1 && ex.Referrers() != nil && len(*ex.Referrers()) > 0 {
+									used = true
+								}
+							}
+						}
+						r.Check(fmt.Sprintf("%s receive#%d from %s", fnName(fn), k, shortKey(fk)), used, posOf(p, y), fnName(fn), "the channels of "+fk+" are closed at "+where+"; this select case does not ask whether the channel was closed and takes the zero value for a message")
+					}
+				}
+			})
+		})
+	}
+	r.Stat("closed_tables", len(closed))
+	r.Stat("receives_examined", n)
+	if n == 0 {
+		r.Check("receives from closed tables", true, "", "", fmt.Sprintf("%d map fields have their element channels closed; no registering function receives from one", len(closed)))
+	}
+}
+
+// ruleAttemptUsesCurrentConn: the function literal handed to (*Conn).send is run again after a reconnect. The wire
+// connection it talks to has to be looked up inside the literal; a *wire.ClientConn captured from the enclosing function
+// is the connection of the first attempt, which is closed by the time the second attempt runs.
+func ruleAttemptUsesCurrentConn(r *Run, id string) {
+	r.Begin(id, "every attempt talks to the current connection: in a function literal handed to (*Conn).send, no method of wire.ClientConn is called on a connection captured from outside the literal", 3)
+	p := r.P
+	send := r.method("/iscp", "Conn", "send")
+	if send == nil {
+		return
+	}
+	n := 0
+	for _, site := range p.staticCallSites(send) {
+		for _, a := range instrCall(site).Args {
+			unit := closureOf(a)
+			if unit == nil {
+				continue
+			}
+			n++
+			name := fnName(unit)
+			bad := ""
+			where := posOf(p, site)
+			withAnon(unit, func(g *ssa.Function) {
+				allInstrs(g, func(ins ssa.Instruction) {
+					cc := instrCall(ins)
+					if cc == nil {
+						return
+					}
+					cal := cc.StaticCallee()
+					if cal == nil || len(cc.Args) == 0 {
+						return
+					}
+					for _, arg := range cc.Args {
+						if n := namedOf(deref(arg.Type())); n == nil || n.Obj().Name() != "ClientConn" || n.Obj().Pkg() == nil || n.Obj().Pkg().Path() != modPath+"/wire" {
+							continue
+						}
+						v := arg
+						if u, isU := v.(*ssa.UnOp); isU && u.Op == token.MUL {
+							v = u.X
+						}
+						fv, isFV := v.(*ssa.FreeVar)
+						if !isFV {
+							continue
+						}
+						// the captured variable is fine when it is assigned inside the literal before this use
+						assigned := false
+						allInstrs(g, func(y ssa.Instruction) {
+							if st, isSt := y.(*ssa.Store); isSt && st.Addr == ssa.Value(fv) && dominatesInstr(st, ins) {
+								assigned = true
+							}
+						})
+						if !assigned {
+							bad = fv.Name()
+							where = posOf(p, ins)
+						}
+					}
+				})
+			})
+			r.Check(name+" looks the connection up per attempt", bad == "", where, name, "the attempt uses the wire connection captured in "+bad+" by the enclosing function: after a reconnect the second attempt talks to the closed connection of the first")
+		}
+	}
+	if n == 0 {
+		r.Undecided("retried units", "no function literal is handed to (*Conn).send")
 	}
 }
